@@ -104,7 +104,10 @@ SLEEP = 0.35  # seconds a "sleeper" command sleeps
 SHORT = 0.1  # a timeout shorter than SLEEP
 BIG = 60  # a timeout no healthy command reaches
 EMBED_MAX = 256 * 1024  # payloads up to this size (and without NUL) are printed by the shell builtin
-SLEEPER_MAX = 2048  # payload bound for sleepers (their late output may stay unread in a pipe)
+SLEEPER_MAX = 2048
+BUFFERS = [64, 128, 1024, 65536, 65536]  # transferBufferSize of the vf-shell connector = read size of the persistent shell
+LARGE = [200_000, 262_144, 300_001, 524_288, 1_048_576]
+LARGE_FROM = 128 * 1024  # payload bound for sleepers (their late output may stay unread in a pipe)
 
 PROBE = r"""#!/bin/sh
 # usage: probe.sh STATE ID CODE SLEEP PAYLOAD FLAGS ARG
@@ -177,14 +180,20 @@ def _is_plain(s: str) -> bool:
 
 def _sizes(max_size: int):
     edges = [n for n in (4095, 4096, 65535, 65536, 65537, 131072, 2**20 - 1, 2**20) if n <= max_size]
-    return st.one_of(st.integers(0, 64), st.integers(0, 4096), st.sampled_from(edges), st.integers(0, max_size))
+    # around multiples of the (generated) shell buffer sizes: the reply's end-marker line (~50 bytes) then falls on a
+    # read boundary for some of them whatever the length of the header
+    near = st.builds(lambda k, m, d: min(max_size, max(0, k * m + d)), st.integers(1, 8), st.sampled_from(BUFFERS[:3]), st.integers(-64, 8))
+    return st.one_of(st.integers(0, 64), st.integers(0, 4096), near, near, st.sampled_from(edges), st.integers(0, max_size))
 
 
-def _outs(max_size: int, kinds=None):
+def _outs(max_size: int, kinds=None, large: bool = False):
+    sizes = _sizes(max_size)
+    if large:  # a few outputs beyond what a pipe plus a StreamReader buffer hold (64 KiB + 128 KiB), in every tier
+        sizes = st.one_of(*([sizes] * 15), st.sampled_from(LARGE))
     return st.fixed_dictionaries(
         {
             "k": st.sampled_from(kinds or ["text", "text", "textnl", "textnl", "ws", "empty", "bin", "bin"]),
-            "n": _sizes(max_size),
+            "n": sizes,
             "s": st.integers(0, 999),
         }
     )
@@ -202,7 +211,7 @@ codes = st.one_of(st.just(0), st.just(0), st.sampled_from([1, 2, 126, 127, 128, 
 
 
 @st.composite
-def _cmds(draw, max_size: int, foci, tmodes, need_env_wd: bool = False, kinds=None, par=(False,)):
+def _cmds(draw, max_size: int, foci, tmodes, need_env_wd: bool = False, kinds=None, par=(False,), large: bool = False):
     focus = draw(st.sampled_from(foci))
     env = draw(env_hostile if focus == "env" else env_plain)
     wd = draw(wd_hostile if focus == "wd" else wd_plain)
@@ -213,7 +222,7 @@ def _cmds(draw, max_size: int, foci, tmodes, need_env_wd: bool = False, kinds=No
             wd = [draw(plain_name)]
     arg = draw(plain_value if focus == "plain" else st.one_of(plain_value, hostile_value))
     tmode = draw(st.sampled_from(tmodes))
-    out = draw(_outs(max_size, kinds))
+    out = draw(_outs(max_size, kinds, large))
     if tmode in ("sleep", "sleep-big", "timeout"):
         out = dict(out, n=out["n"] % (SLEEPER_MAX + 1))
     return {
@@ -242,8 +251,9 @@ def _single_cases():
     return st.fixed_dictionaries(
         {
             "path": st.sampled_from(["local", "shell", "shell", "job", "stdin"]),
-            "cmd": _cmds(m, FOCI, ["none", "none", "none", "big", "big", "sleep-big", "timeout"]),
+            "cmd": _cmds(m, FOCI, ["none", "none", "none", "big", "big", "sleep-big", "timeout"], large=True),
             "stdin": stdin_desc,
+            "buf": st.sampled_from(BUFFERS),
         }
     )
 
@@ -253,7 +263,7 @@ def _seq_cases():
     cmd = _cmds(min(m, 2**17), ["plain"] * 10 + ["arg", "arg", "env", "wd"],
                 ["none", "none", "none", "none", "big", "big", "sleep", "timeout", "timeout"],
                 kinds=["text"] * 4 + ["textnl"] * 4 + ["ws", "ws", "empty", "bin"], par=(False, False, False, True))
-    return st.fixed_dictionaries({"fresh": st.sampled_from(["job", "job", "local"]), "cmds": st.sampled_from([2, 3, 3, 4, 4, 5, 6, 1] + ([7, 8, 8] if _tier() == "thorough" else [])).flatmap(lambda n: st.lists(cmd, min_size=n, max_size=n))})
+    return st.fixed_dictionaries({"fresh": st.sampled_from(["job", "job", "local"]), "buf": st.sampled_from(BUFFERS), "cmds": st.sampled_from([2, 3, 3, 4, 4, 5, 6, 1] + ([7, 8, 8] if _tier() == "thorough" else [])).flatmap(lambda n: st.lists(cmd, min_size=n, max_size=n))})
 
 
 def _tmpl_cases():
@@ -335,6 +345,32 @@ class _Procs:
 
     def __exit__(self, *exc) -> None:
         asyncio.create_subprocess_exec = self._orig
+
+    def kill_all(self, states: list[str]) -> None:
+        """After a hang verdict: nothing of the abandoned attempt may stay behind."""
+        import signal
+
+        for proc in list(self.procs):
+            if proc.returncode is None:
+                try:
+                    proc.kill()
+                except ProcessLookupError:
+                    pass
+        for state in states:
+            if os.path.isdir(state):
+                for pid in _all_pids(state):
+                    if _alive(pid):
+                        try:
+                            os.kill(pid, signal.SIGKILL)
+                        except ProcessLookupError:
+                            pass
+        for proc in list(self.procs):  # close our end of the pipes: a grandchild blocked in write() gets EPIPE
+            transport = getattr(proc, "_transport", None)
+            if transport is not None:
+                try:
+                    transport.close()
+                except Exception:  # noqa: BLE001
+                    pass
 
     async def quiesce(self, states: list[str]) -> None:
         for proc in list(self.procs):
@@ -498,7 +534,12 @@ class _Run:
         fallback = item.get("fallback")
         if self.path == "shell" and fallback and n > 1:
             item["count_flagged"] = item["flagged"] = True
-            if fallback.startswith("Timeout"):
+            if fallback.startswith("Timeout") and not item["may_timeout"]:
+                self.violations.append(("C25:shell:spurious-timeout-fallback",
+                                        f"[shell #{item['idx']}] a command that finishes immediately (timeout {item['timeout']}) was reported as timed "
+                                        f"out by the persistent shell ({fallback!r}): its reply was not recognised; run() fell back to a subprocess "
+                                        f"and the command was executed {n} times ({when}): {' '.join(item['words'])[:300]}"))
+            elif fallback.startswith("Timeout"):
                 self.violations.append(("C25:shell:timeout:re-executed",
                                         f"[shell #{item['idx']}] the command timed out on the persistent shell ({fallback!r}), run() fell back to a "
                                         f"subprocess and the command was executed {n} times ({when}): {' '.join(item['words'])[:300]}"))
